@@ -893,6 +893,23 @@ Fixpoint check_replies (limit : Z) (pw : bytes) (reqs : list (list bytes)) (reps
 
 Definition last_obs (obs : list sx) : sx := last obs (SL []).
 
+(* C04: a request (not redirected there by a node, not part of the handshake or the topology probe)
+   must have been sent to the node that owns the slot of its first key in the configured table *)
+Definition misrouted (ranges : list sx) (addr : bytes) (a : list bytes) : bool :=
+  let cmd := to_lower (hd [] a) in
+  let key := hd [] (tl a) in
+  if (beqb cmd (bs "auth") || beqb cmd (bs "readonly") || beqb cmd (bs "cluster") || beqb cmd (bs "asking"))%bool then false
+  else if (find_sub key (bs "mov") || find_sub key (bs "ask"))%bool then false
+  else match tl a with
+       | [] => false
+       | _ =>
+         let slot := Z.of_N (key_slot key) in
+         match find (fun r => match r with SL [SN lo; SN hi; SB _] => (lo <=? slot)%Z && (slot <=? hi)%Z | _ => false end) ranges with
+         | Some (SL [_; _; SB owner]) => negb (beqb owner addr)
+         | _ => true      (* unowned slot: nothing may be sent for it *)
+         end
+       end.
+
 (* C16: a timeout scan that follows a task round (so every routed fragment has been written) with
    every deadline passed completes every request: no open client keeps a queued request *)
 Fixpoint scan_leaves_requests (prev_tasks : bool) (evs obs : list sx) : bool :=
@@ -911,7 +928,7 @@ Fixpoint scan_leaves_requests (prev_tasks : bool) (evs obs : list sx) : bool :=
 
 Definition o_loop (a : sx) : sx :=
   match a with
-  | SL [SL [SL (SN limit :: SB pw :: SN tmo :: _); _; _; SL evs]; SL obs] =>
+  | SL [SL [SL (SN limit :: SB pw :: SN tmo :: _); _; SL ranges; SL evs]; SL obs] =>
       if (negb (Z.eqb tmo 0) && scan_leaves_requests false evs obs)%bool
       then viol "request-not-completed-by-the-timeout-scan" []
       else
@@ -955,6 +972,7 @@ Definition o_loop (a : sx) : sx :=
                 | SL [SB addr; SN k; _; _; _; SB got] =>
                     let reqs := all_requests (S (length got)) got in
                     if negb (Nat.eqb (length (concat (map enc_request reqs))) (length got)) then viol "backend-received-bytes-that-are-not-requests" [SB addr; SN k]
+                    else if existsb (fun a => misrouted ranges addr a) reqs then viol "request-delivered-to-a-node-that-does-not-own-the-slot" [SB addr; SN k]
                     else if negb (nondecreasing_per_client reqs []) then viol "requests-of-one-client-reordered-on-a-node" [SB addr; SN k]
                     else if (negb (beqb addr (bs "10.1.0.1:7000")) && ask_without_asking reqs false)%bool then viol "ask-redirect-without-asking" [SB addr; SN k]
                     else ok
